@@ -52,6 +52,7 @@ type scenario struct {
 	Client   string `json:"client"`
 	Key      string `json:"key"`
 	Received int    `json:"received"`
+	Class    string `json:"class"`
 }
 
 type mismatch struct {
@@ -339,6 +340,10 @@ func runUpload(id int, sc scenario, variant int, base string) (res result) {
 	if sc.Len > 0 && variant%2 == 1 {
 		size += 7
 	}
+	reject := strings.HasPrefix(sc.Kind, "reject_")
+	if reject && off < 0 {
+		off = 0 // the verdict is known to have arrived only once the p-th unit has been handed to the stream
+	}
 	at := sc.P*1024 + off
 	if at < 0 {
 		at = 0
@@ -349,7 +354,7 @@ func runUpload(id int, sc scenario, variant int, base string) (res result) {
 	src := pattern(size, byte(0x40|id))
 	old := pattern(64, 0x33)
 	external_ := (variant/3)%3 != 2 // two thirds through the gRPC client, one third inline
-	if sc.Kind == "cut" {
+	if sc.Kind == "cut" || strings.HasPrefix(sc.Kind, "reject_") {
 		external_ = true
 	}
 	ctx := context.Background()
@@ -409,11 +414,30 @@ func runUpload(id int, sc scenario, variant int, base string) (res result) {
 		r.onHit = func() error { cancel(); return context.Canceled }
 	case "cut":
 		r.onHit = func() error { px.cut(); return nil }
+	case "reject_emptykey", "reject_nospace":
+		// the server has refused the upload by now; give its verdict the time to reach the client
+		r.onHit = func() error { time.Sleep(100 * time.Millisecond); return nil }
+	}
+	upKey := "key"
+	if sc.Kind == "reject_emptykey" {
+		upKey = ""
+	}
+	if sc.Kind == "reject_nospace" {
+		roots := cfg.Storage.RootDirs
+		verif.SetWriteFault(func(path string, p []byte) (int, error, bool) {
+			for _, r := range roots {
+				if strings.HasPrefix(path, r+"/") {
+					return 0, verif.ErrNoSpace, true
+				}
+			}
+			return 0, nil, false
+		})
+		defer verif.SetWriteFault(nil)
 	}
 	var wErr error
 	useCreate := (variant/27)%2 == 1
 	if useCreate {
-		f, err := db.Create(wctx, "key")
+		f, err := db.Create(wctx, upKey)
 		if err != nil {
 			wErr = err
 		} else {
@@ -426,11 +450,26 @@ func runUpload(id int, sc scenario, variant int, base string) (res result) {
 			}
 		}
 	} else {
-		wErr = db.SetReader(wctx, "key", r)
+		wErr = db.SetReader(wctx, upKey, r)
+	}
+	if sc.Kind == "reject_nospace" {
+		verif.SetWriteFault(nil)
 	}
 	cancel() // the call returned: whatever context it used is over
 	where := fmt.Sprintf("%s of %d bytes, %s after %d bytes, %s client, %s", map[bool]string{true: "Create+Write*+Close", false: "SetReader"}[useCreate],
 		size, sc.Kind, at, map[bool]string{true: "gRPC", false: "inline"}[external_], errStr(wErr))
+	if reject {
+		// C11: the caller is told why the server refused, whatever the moment the refusal reached the client
+		want, name := fs_db.ErrEmptyKey, "ErrEmptyKey"
+		if sc.Kind == "reject_nospace" {
+			want, name = fs_db.ErrNoFreeSpace, "ErrNoFreeSpace"
+		}
+		if !errors.Is(wErr, want) {
+			res.Status, res.Owner = "violation", "C11"
+			res.Mismatch = &mismatch{Kind: "class", Detail: fmt.Sprintf("the server refused the upload with %s but the caller cannot tell: %s", name, where)}
+			return res
+		}
+	}
 	// "no reader ever sees partial content": watch the key while the server winds the upload down
 	deadline := time.Now().Add(300 * time.Millisecond)
 	for {
